@@ -19,18 +19,8 @@ MAP_FIXED = os.environ.get("C14_MAP_FIXED", "1") == "1"   # default: the repaire
 # the classes of the three repaired findings (map-order-multiprocess, run-jobs-startup-race, grid-parallel-failing-cell)
 # are no longer attached to any failure: those failures are violations again
 SNEAKIER_CLASS = "sneakier-two-pools-constructed"
-PICKLE_RACE_CLASS = "job-pickling-race"
-RACE_TEXT = "dictionary changed size during iteration"
-
-
-def is_pickling_race(c, r):
-    """the one signature of known finding job-pickling-race in a real-caller case: the PARALLEL run raised exactly this
-    RuntimeError before any cell had been evaluated, the serial run behaved"""
-    if c["kind"] not in ("grid_fit", "sens_fit") or not isinstance(r, dict) or "parallel" not in r:
-        return False
-    par = r["parallel"]
-    return bool(par.get("raised")) and par["raised"][0] == "RuntimeError" and RACE_TEXT in str(par["raised"][1]) \
-        and not any(par.get("evals", [1])) and (r["serial"].get("raised") or [None])[0] != "RuntimeError"
+# former finding job-pickling-race (RuntimeError "dictionary changed size during iteration" out of a parallel Sensitivity.run)
+# is fixed by e882fb2; its class is attached to nothing, the pickle_walk case is its regression obligation
 
 
 def fval(x):
@@ -270,7 +260,7 @@ FIXED_CASES = [
     {"kind": "grid_fit", "n": 4, "grid": ["a"], "cores": 4, "fail": [], "sched": [["T", 2], ["T", 1], ["T", 0], ["T", 0], ["P"]]},
     {"kind": "jobs", "cores": 4, "jobs": [[1, 0], [2, 0], [3, 0], [4, 0]], "sched": [["T", 2], ["T", 1], ["T", 0], ["T", 0], ["P"]]},
     # a model query while another thread pickles an instance of the model's class (known finding job-pickling-race)
-    {"kind": "pickle_walk", "attrs": 3},
+    {"kind": "pickle_walk", "attrs": 3, "pin": "job-pickling-race"},
     # two SneakierPools constructed before the first is used
     {"kind": "sneakier", "procs": 2, "order": "constructed-first", "pools": [{"mul": 3, "xs": [1, 2, 3]}, {"mul": 100, "xs": [1, 2]}]},
     {"kind": "smap_free", "procs": 3, "batches": [{"jobs": [[5, 0, 3], [6, 0, 0], [7, 0, 1], [8, 0, 0]], "big": True}]},
@@ -402,15 +392,10 @@ def oracle(c, r):
     if k == "pickle_walk":
         # r["fired"] is false when the walk never looks into the class (the repaired walk): then nothing can interleave
         if r["raised"] or r["concurrent"] != r["alone"]:
-            known = bool(r["raised"]) and r["raised"][0] == "RuntimeError" and RACE_TEXT in str(r["raised"][1])
             out.append(("a model query answered %s alone but %s while another thread pickled an instance of the model's class "
                         "(the job queue's feeder thread does that while Sensitivity._make_jobs builds the next job)" % (
-                            r["alone"], r["raised"] or r["concurrent"]), [PICKLE_RACE_CLASS] if known else []))
+                            r["alone"], r["raised"] or r["concurrent"]), []))
         return out
-    if k in ("grid_fit", "sens_fit") and is_pickling_race(c, r):
-        return [("number_of_cores=%d raised %s before any cell was evaluated, number_of_cores=1 %s" % (
-            c["cores"], r["parallel"]["raised"], "raised %s" % r["serial"]["raised"] if r["serial"].get("raised") else "returned"),
-            [PICKLE_RACE_CLASS])]
     if k in ("grid_fit", "sens_fit"):
         ser, par = r["serial"], r["parallel"]
         total = c["n"] ** len(c["grid"]) if k == "grid_fit" else c["n"]
@@ -675,9 +660,9 @@ def run(ctx):
         "the only in-tree caller of map, the initializer's zip, exhausts it); a function that RETURNS an Exception instance is "
         "treated as if it had raised it; MPI pools; the real Emcee search (its fit fails in this environment with IndexError in "
         "emcee.autocorr for any number of cores) -- emcee is driven through EnsembleSampler.sample with the pool instead",
-        "the real-caller cases are made deterministic with respect to known finding job-pickling-race by pickling an instance of "
-        "every model class once before the first case (the one-time window in which pickle adds __slotnames__ to the class "
-        "dict is then closed); the race itself is exhibited deterministically by the pickle_walk case",
+        "job building in the main thread concurrent with the feeder thread pickling earlier jobs is not part of the Coq model; "
+        "the one interference found (former finding job-pickling-race, fixed by e882fb2) is pinned by the pickle_walk case, "
+        "which forces that interleaving; the real-caller cases run without any pre-pickling",
         "which exception a map with several failing inputs raises: the LAST failing input's (model, theorem and oracle agree); "
         "serial evaluation would stop at the first",
     ]
@@ -702,7 +687,7 @@ def run(ctx):
     results = [None] * len(cases)
     for p, o in zip(parts, outs):
         if "__error__" in o:
-            ctx.obligation("impl-driver", "harness", False, "a driver did not return within its budget: " + o["__error__"][-600:])
+            ctx.obligation("impl-driver", "harness", False, "a driver crashed or did not return within its budget: " + o["__error__"][-600:])
             for i in p:
                 results[i] = {"exc": "NotRun", "msg": "driver killed"}
             continue
@@ -744,7 +729,7 @@ def run(ctx):
             if ctx.failure("oracle", msg, c, classes=classes, impl=r["ok"]):
                 hard = True
         fails[i] = bool(msgs)
-        cc = None if is_pickling_race(c, r["ok"]) else coq_case(c, r["ok"])
+        cc = coq_case(c, r["ok"])
         if cc:
             coq_cases.append(cc)
             coq_idx.append(i)
@@ -755,7 +740,7 @@ def run(ctx):
     for i, c in enumerate(cases):
         if c.get("pin"):
             pins.setdefault(c["pin"], []).append(i)
-    for sig in ("sneaky-map-completion-order", "run-jobs-startup-race", "grid-parallel-failing-cell"):
+    for sig in ("sneaky-map-completion-order", "run-jobs-startup-race", "grid-parallel-failing-cell", "job-pickling-race"):
         idx = pins.get(sig, [])
         if not idx and ctx.replay:
             continue
@@ -795,6 +780,6 @@ MANIFEST = {
             "under test unmodified), FIFO/no-loss semantics of multiprocessing.Queue. Schedules are atomic interleavings; worker "
             "death, abandoned generators and MPI pools are out of scope (stated in the evidence). Known finding: "
             "sneakier-two-pools-constructed; fixed in /repo and pinned by regression obligations: sneaky-map-completion-order "
-            "(c80ac95), run-jobs-startup-race (67a753d), grid-parallel-failing-cell (74ff428).",
+            "(c80ac95), run-jobs-startup-race (67a753d), grid-parallel-failing-cell (74ff428), job-pickling-race (e882fb2).",
     "technique": "machine-checked proof in Coq (schedule-quantified transition systems) + vm_compute correspondence under steered schedules",
 }
